@@ -24,7 +24,9 @@ mvars == <<prog, codes, ctr, last, hist>>
 MP == Programs[prog]
 OwnPart == MP.parts[Len(MP.parts)]
 Senders == {"alice", "bob"}
-NoCtr == [exists |-> FALSE, code |-> 0, label |-> "", admin |-> "", mark |-> "", count |-> 0, bal |-> 0]
+NoCtr == [exists |-> FALSE, code |-> 0, label |-> "", admin |-> "", mark |-> "", count |-> 0, bal |-> 0, funds |-> 0]
+(* funds codes: n atom; 7 stands for two coins given in non-alphabetical order: 4 zeta, then 3 atom *)
+AtomOf(f) == IF f = 7 THEN 3 ELSE f
 NoRes == [ok |-> TRUE, kind |-> "none", code |-> 0]
 
 MethodsOfKind(k) == UNION {{[part |-> MP.parts[i].id, m |-> m] : m \in Range(EMethodsOf(MP.parts[i], k))} : i \in 1..Len(MP.parts)}
@@ -59,7 +61,7 @@ Instantiate(val, sender, funds, label, admin, salt) ==
        /\ last' = ResOf(m)
        /\ ctr' = IF m.outcome = "ok"
                  THEN [exists |-> TRUE, code |-> codes, label |-> IF label = "" THEN "Contract" ELSE label, admin |-> admin,
-                       mark |-> m.name, count |-> 1, bal |-> funds]
+                       mark |-> m.name, count |-> 1, bal |-> AtomOf(funds), funds |-> funds]
                  ELSE ctr
     /\ hist' = Append(hist, Op("instantiate", "own", InstM.name, val, sender, funds, label, admin, salt))
     /\ UNCHANGED <<prog, codes>>
@@ -67,7 +69,8 @@ Instantiate(val, sender, funds, label, admin, salt) ==
 Exec(pm, val, sender, funds) ==
     /\ ctr.exists /\ pm \in MethodsOfKind("exec")
     /\ last' = ResOf(pm.m)
-    /\ ctr' = IF pm.m.outcome = "ok" THEN [ctr EXCEPT !.mark = pm.m.name, !.count = @ + 1, !.bal = @ + funds] ELSE ctr   \* a failed call changes nothing
+    /\ ctr' = IF pm.m.outcome = "ok" THEN [ctr EXCEPT !.mark = pm.m.name, !.count = @ + 1, !.bal = @ + AtomOf(funds), !.funds = funds]
+                 ELSE ctr   \* a failed call changes nothing
     /\ hist' = Append(hist, Op("exec", pm.part, pm.m.name, val, sender, funds, "", "", ""))
     /\ UNCHANGED <<prog, codes>>
 
@@ -94,9 +97,9 @@ Migrate(val, sender) ==
 
 MNext ==
     \/ Store
-    \/ \E val \in {0, 1}, s \in Senders, f \in {0, 5}, lab \in {"", "lbl"}, adm \in {""} \cup Senders, salt \in {"", "s1"} :
+    \/ \E val \in {0, 1}, s \in Senders, f \in {0, 5, 7}, lab \in {"", "lbl"}, adm \in {""} \cup Senders, salt \in {"", "s1"} :
            Instantiate(val, s, f, lab, adm, salt)
-    \/ \E pm \in MethodsOfKind("exec"), val \in {0, 1}, s \in Senders, f \in {0, 3} : Exec(pm, val, s, f)
+    \/ \E pm \in MethodsOfKind("exec"), val \in {0, 1}, s \in Senders, f \in {0, 3, 7} : Exec(pm, val, s, f)
     \/ \E pm \in MethodsOfKind("query"), val \in {0, 1} : Query(pm, val)
     \/ \E pm \in MethodsOfKind("sudo"), val \in {0, 1} : Sudo(pm, val)
     \/ \E val \in {0, 1}, s \in Senders : Migrate(val, s)
